@@ -3,6 +3,21 @@ import json, os
 VERIF = os.path.dirname(os.path.dirname(os.path.abspath(__file__)))
 
 CHECKS = {
+    "C13": dict(
+        category="model_checking",
+        text="TLC checks Exactness, DisableExact, OutputExactness, UnusedExact and ExitCode on Errors.tla (the decision tree of add_error_info / "
+             "is_ignored_error, end-of-file generation with its gating, render, exit) over all ignore maps x enabled / disabled code sets x flag "
+             "sets x report sequences of three bounded slices (sub-code pair, default-off code, renamed code, only-once, parented notes, blockers, "
+             "multi-line spans, skipped lines). Every emitted behaviour (318 k) is replayed into a real mypy.errors.Errors; real builds of the "
+             "check-*.test corpus are recorded from outside and validated trace by trace by TLC; `# type: ignore` placements and --disable / "
+             "--enable-error-code variants must print exactly what the spec predicts from the unmodified run's reports (metamorphic); the exit "
+             "status is bound through main.main and `python -m mypy`. Three spec-level mutants are rejected on every run.",
+        design_ref="DESIGN.md 5.C13, Appendix D, notes/C13.md",
+        note="bounded alphabets (<=2 reports in replay, <=3 in one slice); many_errors_threshold hiding excluded; watcher-swallowed derived notes and "
+             "runs whose ignore map changes mid-file are skipped and counted; three known findings (an unmatched coded ignore drops the 'did you "
+             "mean' suggestion of a name / import error; a suppressed error resurfaces under another code)",
+        technique="TLA+ spec (Errors.tla) model-checked with TLC; TLC-generated behaviours replayed into mypy.errors.Errors; recorded real runs validated by TLC; metamorphic end-to-end checks over the test corpus and the CLI",
+    ),
     "C12": dict(
         category="model_checking",
         text="TLC enumerates the bounded input spaces of four transcriptions of CPython's run-time rules and checks rule-level invariants: argument "
